@@ -215,3 +215,19 @@ def _mk_compare(o: int) -> None:
 
 for _o in DISTINCT:
     _mk_compare(_o)
+
+
+# interface fact CAL-RANGE used by clients that convert dates to local instants: the supported days of every calendar lie
+# inside the range of _LocalInstant / Instant day numbers
+for _o in DISTINCT:
+
+    def _mk_range(o=_o):
+        @contract(H + "day_range", "C01", "C09", name=f"[{cal_name(o)}] CAL-RANGE: the calendar's days lie within the local-instant day range")
+        def _(c):
+            c.arg("calc", Const(lambda: calc_of(o)))
+            c.ground = lambda: [{"calc": calc_of(o)}]
+            c.ground_interp_stride = 1
+            c.allow_mutation = cache_ok
+            c.returns(lambda a, r: V.INSTANT_MIN_DAYS <= r[0] <= r[1] <= V.INSTANT_MAX_DAYS)
+
+    _mk_range()
